@@ -26,7 +26,7 @@ FLOORS = {"quick": {"dt.accessors": 300000, "dt.eq_hash": 20000, "dt.pairs": 100
           "thorough": {"dt.accessors": 3 * 10**6, "dt.eq_hash": 200000, "dt.pairs": 10**6, "dt.order_instants": 500000, "dt.sub": 100000,
                        "types": 500000, "date.accessors": 200000, "date.pairs": 50000, "time.accessors": 200000, "time.pairs": 50000}}
 REQUIRED_HOOKS = []
-TECHNIQUE = "differential runtime monitor against the native twin (same fields/fold/tzinfo) for every stdlib accessor and operator, plus instant-order and return-type checks; astimezone() into stdlib fixed/named, user-defined DST, zoneinfo and dateutil targets compared by full views; shards run under rotating process-local zones (TZ) for naive values"
+TECHNIQUE = "differential runtime monitor against the native twin (same fields/fold/tzinfo) for every stdlib accessor and operator, plus instant-order and return-type checks; astimezone() into stdlib fixed/named, user-defined DST, zoneinfo and dateutil targets compared by full views; shards run under rotating process-local zones (TZ) for naive values, which are also re-read after set_local_timezone() and after a TZ change (hidden local-zone history)"
 LEVEL_TEXT = ("every listed accessor/operator is evaluated on the pendulum object and on its native twin and compared; values sit on and "
               "around every transition of every zone in both folds, pairs include same-zone, cross-zone and pendulum x native in both "
               "orders; held on what was observed")
@@ -83,7 +83,9 @@ ACC += [("timetz()", lambda d: (lambda t: (t.isoformat(), t.utcoffset(), t.tznam
 _SPECS = ["%Y-%m-%d %H:%M:%S", "[%Y-%m-%d %H:%M:%S]", "[%H:%M:%S.%f]", "[log] %H:%M", "[%a] %d %b [%Y]", "%%Y [%j]", ""]
 ACC += [("format(%r)" % sp, (lambda sp: (lambda d: (format(d, sp), "{:{}}".format(d, sp) if sp else "{}".format(d))))(sp)) for sp in _SPECS]
 ACC += [("astimezone[%s]" % n, (lambda t: (lambda d: _view(d.astimezone(t))))(t)) for n, t in _TARGETS]
-DACC = [("isoformat", lambda d: d.isoformat()), ("strftime", lambda d: d.strftime("%Y-%m-%d %j %a %A %U %W %G %V %u %y %b %B %x")),
+_NAIVE_ACC = [a for a in ACC if a[0] in ("timestamp", "utctimetuple", "astimezone(utc)", "astimezone(zi)", "isoformat", "utcoffset", "tzname")
+              or a[0].startswith("astimezone[")]
+DACC = [("isoformat", lambda d: d.isoformat()), ("strftime",lambda d: d.strftime("%Y-%m-%d %j %a %A %U %W %G %V %u %y %b %B %x")),
         ("timetuple", lambda d: tuple(d.timetuple())), ("toordinal", lambda d: d.toordinal()), ("weekday", lambda d: d.weekday()),
         ("isoweekday", lambda d: d.isoweekday()), ("isocalendar", lambda d: tuple(d.isocalendar())), ("ctime", lambda d: d.ctime()),
         ("hash", hash)]
@@ -216,6 +218,33 @@ def run(M, c):
         # (for a naive value timestamp()/astimezone()/utctimetuple() go through the platform's local time in both classes)
         _acc(M, "dt.accessors", ACC, p, (("same-tzinfo", t1),), "DateTime-" + k, value=p.isoformat())
         M.check("dt.eq_hash", p == t1 and hash(p) == hash(t1), f"C11/DateTime-{k}:eq-hash-twin", "not equal/hash-equal to twin", value=p.isoformat())
+        if tz is None and c["u"] % 3 == 0:
+            # hidden process-wide state the native class knows nothing about: (a) pendulum's own notion of the local zone is
+            # replaced (set_local_timezone, what test_local_timezone() does); (b) the process-local zone itself changes
+            # (TZ + tzset) after pendulum has already resolved and memoised "the local timezone".  A naive value goes
+            # through the platform's local time in the native class, so the pendulum value must keep answering like it.
+            import os as _os
+            import time as _time
+
+            P.local_timezone()                     # make sure the memo exists before the environment changes
+            other = ("Asia/Tokyo", "America/St_Johns", "Pacific/Chatham", "Europe/London")[c["u"] // 3 % 4]
+            P.set_local_timezone(P.timezone(other))
+            try:
+                _acc(M, "dt.accessors", _NAIVE_ACC, p, (("same-tzinfo", t1),), "DateTime-naive:after-set_local_timezone", value=p.isoformat(), mock=other)
+            finally:
+                P.set_local_timezone()
+            old = _os.environ.get("TZ")
+            _os.environ["TZ"] = other
+            _time.tzset()
+            try:
+                _acc(M, "dt.accessors", _NAIVE_ACC, p, (("same-tzinfo", t1),), "DateTime-naive:after-TZ-change", value=p.isoformat(), tz=other)
+            finally:
+                if old is None:
+                    _os.environ.pop("TZ", None)
+                else:
+                    _os.environ["TZ"] = old
+                _time.tzset()
+            M.count("naive_hidden_local_zone_steps")
         return
     if k == "date":
         F = us_to_fields(c["u"])[:3]
